@@ -23,7 +23,11 @@
      T12.3  chain rule for TWO time points with scalar observations: the
             density term of the joint Gaussian of (y0, y1) factors into the term
             of the marginal of y1 and the term of the conditional of y0 given y1
-            (maha_joint = maha_1 + maha_{0|1}, det_joint = det_1 * det_{0|1}).
+            (maha_joint = maha_1 + maha_{0|1}, det_joint = det_1 * det_{0|1});
+            and the two terms that the MODEL's time-series loss produces for two
+            time points (one scalar-observation block, any state dimension, any
+            backward conditional) are exactly these, with the joint assembled
+            from the Markov factorisation (plain backward gain) plus noise.
    NOT proved (hence `_partial`): the chain rule for N > 2 time points / vector
    observations (block LDL of the (N k) x (N k) joint covariance).  For general N
    the correspondence check (harness/c12.py) compares the recursion with the
@@ -129,6 +133,38 @@ Section C12.
       n_density minv 1 1 cond0 [[y0]] = Some t0 ->
       d_maha tj = d_maha t1 + d_maha t0 /\ d_det tj = d_det t1 * d_det t0.
   Proof. exact chain_rule_two_points. Qed.
+
+  (* T12.3 at the level of the model (partial: two time points, one block with
+     scalar observations -- a block of the block-diagonal factorisation; state
+     dimension q+1, backward conditional K with arbitrary scalings, observed
+     coefficient i, noise variances r0, r1, data y0, y1 all arbitrary).
+     The two density terms that the time-series loss produces (terminal update,
+     then predict through K and update) combine to the density term of the JOINT
+     Gaussian of (y0, y1) assembled from the Markov factorisation
+       x1 ~ N(mu, P),  x0 | x1 given by K,  Cov(x0, x1) = A_plain P  (plain gain),
+       y_j = (x_j)_i + N(0, r_j)
+     -- i.e. the loss is the log-density under the joint smoothing posterior
+     plus independent noise, for N = 2. *)
+  Theorem C12_two_point_loss_is_joint_density_partial :
+    forall q i (K : @cond F) (mu P : @mat F) (r0 r1 y0 y1 : F) (terms : list (list (@dterm F))),
+      i <= q ->
+      (forall a b, a < S q -> b < S q -> mget P a b = mget P b a) ->
+      let s := mkShape BlockDiag q 1 in
+      let N := S q in
+      loss_lml_timeseries_terms minv s i [[[[y0]]]; [[[y1]]]] (mkMS (Single [mkN mu P]) [[K]]) [[r0]; [r1]]
+        = Some terms ->
+      let x0 := c_marg N N 1 K (mkN mu P) in
+      let m1 := mget mu i 0 in
+      let m0 := mget (n_mean x0) i 0 in
+      let s11 := mget P i i + r1 in
+      let s00 := mget (n_cov x0) i i + r0 in
+      let s01 := vsum N (fun l => mget (c_A (c_plain N N 1 K)) i l * mget P l i) in
+      exists t1 t0,
+        terms = [[t1]; [t0]]
+        /\ forall tj,
+             n_density minv 2 1 (mkN [[m0]; [m1]] [[s00; s01]; [s01; s11]]) [[y0]; [y1]] = Some tj ->
+             d_maha tj = d_maha t1 + d_maha t0 /\ d_det tj = d_det t1 * d_det t0.
+  Proof. exact two_point_loss_terms_are_joint_density. Qed.
 End C12.
 
 Print Assumptions C12_accumulator_sum.
@@ -139,3 +175,4 @@ Print Assumptions C12_bayes_rule_and_logpdf_is_density_and_bayes_update.
 Print Assumptions C12_step_is_predict_then_condition.
 Print Assumptions C12_to_derivative_has_unit_scalings.
 Print Assumptions C12_chain_rule_two_points_partial.
+Print Assumptions C12_two_point_loss_is_joint_density_partial.
